@@ -9,23 +9,30 @@ import (
 
 func TestX(t *testing.T) {
 	for _, q := range []string{
-		"SELECT NOT f AS r FROM stream",
-		"SELECT not f AS r FROM stream",
-		"SELECT NOT f FROM stream",
-		"SELECT null_if(x,'a') IS NULL AS r FROM stream",
-		"SELECT nullif(x,'a') IS NULL AS r FROM stream",
-		"SELECT DISTINCT ts AS x, \"a)b(\" AS y FROM stream",
-		"SELECT ts AS x, 'foo(' AS y FROM stream",
-		"SELECT ts AS x, 'sum(a)' AS y FROM stream",
+		"SELECT CASE WHEN a > -a THEN 1 ELSE 0 END AS r FROM stream",
+		"SELECT -0.25 + -a AS r FROM stream",
+		"SELECT -a AS r FROM stream",
+		"SELECT a - -a AS r FROM stream",
+		"SELECT a - a AS r FROM stream",
+		"SELECT a * -a AS r FROM stream",
+		"SELECT (-a) AS r FROM stream",
+		"SELECT abs(-a) AS r FROM stream",
+		"SELECT abs(a, -a) AS r FROM stream",
+		"SELECT d.b - -d.b AS r FROM stream",
+		"SELECT CASE WHEN a > 0 THEN -a ELSE - a END AS r FROM stream",
+		"SELECT CASE WHEN a > 0 THEN 1 ELSE 0 END - 1 AS r FROM stream",
+		"SELECT arr[1] - 1 AS r FROM stream",
+		"SELECT a -1 AS r FROM stream",
+		"SELECT a-1 AS r FROM stream",
+		"SELECT 'x' AS r, - a AS q FROM stream",
 	} {
 		s := streamsql.New()
 		if err := s.Execute(q); err != nil {
 			fmt.Println(q, "ERR", err)
 			continue
 		}
-		r, err := s.EmitSync(map[string]any{"f": true, "ts": 5})
-		r2, err2 := s.EmitSync(map[string]any{"f": false, "x": "a", "ts": 6})
-		fmt.Printf("%s => %#v %v | %#v %v\n", q, r, err, r2, err2)
+		r, err := s.EmitSync(map[string]any{"a": 2, "d": map[string]any{"b": 7}, "arr": []any{1, 5}})
+		fmt.Printf("%s => %v %v\n", q, r, err)
 		s.Stop()
 	}
 }
